@@ -374,6 +374,10 @@ class TCPClient(Client):
 
         def on_done(sock):
             self._poller.addReader(self, sock)
+            if self._buffer and not self._poller.isWriting(sock):
+                # data handed over while not connected: the writer registered
+                # then (if any) was for a socket the poller has dropped
+                self._poller.addWriter(self, sock)
             self.fire(connected(host, port))
 
         if self.secure:
@@ -442,6 +446,8 @@ class UNIXClient(Client):
         self._connected = True
 
         self._poller.addReader(self, self._sock)
+        if self._buffer and not self._poller.isWriting(self._sock):
+            self._poller.addWriter(self, self._sock)
 
         if self.secure:
 
